@@ -90,6 +90,73 @@ def subsume_operands(ctx, R):
                   "Lexer::check_subsume forwards %s" % roles[1:], site=lx.where(bi))
 
 
+def subsume_guard(ctx, R):
+    """The shortcut may be taken only in lexer states where containment is meaningful: subsume_possible() must be false
+    for dead / errored states and whenever a lazy lexeme is live (a lazy lexeme ends at its first match, so tokens of
+    a contained slice can run past it).  Shared by C01, C02 and C10."""
+    P = ctx.prog
+    sp = ctx.body(RV + "::subsume_possible")
+    # blocks that may give the result a value other than the literal `false`
+    rets_true = []
+    ret_exprs = {}
+    for bi, si, st in sp.statements():
+        if st["s"] == "assign" and st["p"] == [0] and not (st["r"]["rv"] == "use" and st["r"]["o"].get("iv") == "0"):
+            rets_true.append(bi)
+            ret_exprs[bi] = sp.expr_rvalue(st["r"])
+    for bi, t in sp.calls():
+        if t["dest"] == [0]:
+            rets_true.append(bi)
+            ret_exprs[bi] = ("call", t["f"].get("def", "?"), [sp.expr(a) for a in t["args"]], bi)
+    if ctx.floor(R, "`true` return in subsume_possible", len(rets_true), 1):
+        for name, pred in (("state.is_dead()", lambda e: e[0] == "call" and e[1].endswith("StateID::is_dead")),
+                           ("has_error()", lambda e: e[0] == "call" and e[1] == RV + "::has_error")):
+            edges = L.guard_edges(sp, pred, False)
+            still = L.dominated_by_cut(sp, rets_true, edges) if edges else rets_true
+            ctx.check(bool(edges) and not still, R, "subsume_possible:false-if:" + name,
+                      "`true` is returned only when !%s" % name, "subsume_possible can return true although %s" % name, site=sp.where())
+        is_lazy = lambda e: e[0] == "call" and e[1].endswith("LexemeSet::contains") and e[2] and L.is_field_read(RV, "lazy")(L.strip_views(e[2][0]))
+        lz = L.guard_edges(sp, is_lazy, True)
+        reach = set()
+        for (_, t) in lz:
+            reach |= sp.reachable(t)
+        lazy_ok = bool(lz) and not (reach & set(rets_true))
+        if lz:
+            # loop form: `true` only after the scan over the state's lexemes is exhausted (the None edge of the iterator) —
+            # an early `return true` would leave lexemes with a higher index unchecked
+            none_edges = []
+            for bi, e, targets, otherwise in sp.switch_edges():
+                if e[0] == "discr" and e[1][0] == "call" and e[1][1].endswith("::next"):
+                    none_edges += [(bi, tb) for v, tb in targets if v == 0]
+            early = L.dominated_by_cut(sp, rets_true, none_edges) if none_edges else rets_true
+            ctx.check(bool(none_edges) and not early, R, "subsume_possible:true-only-after-full-scan",
+                      "`true` is returned only after every lexeme of the state has been tested for laziness",
+                      "subsume_possible can return true before all lexemes of the state were tested: a lazy lexeme with a higher "
+                      "index goes unnoticed and the slice shortcut is taken in a state where it is unsound", site=sp.where())
+        if not lz:
+            # iterator form: the result is `!iter.any(|(idx, _)| self.lazy.contains(idx))`
+            def any_lazy(e):
+                cur, pol = F.peel_polarity(e)
+                if pol or cur[0] != "call" or not cur[1].endswith("::any") or len(cur[2]) < 2:
+                    return False
+                for c in L._closures_in(cur[2][1]):
+                    clb = P.any_body(c)
+                    if clb is None:
+                        continue
+                    def lazy_upvar(x, _clb=clb):
+                        if not (x[0] == "call" and x[1].endswith("LexemeSet::contains") and x[2]):
+                            return False
+                        src = L.upvar_source(P, _clb, L.strip_views(x[2][0]))
+                        return src is not None and L.is_field_read(RV, "lazy")(L.strip_views(src))
+                    if L._returns_guard_value(clb, [(lazy_upvar, True)]):
+                        return True
+                return False
+            lazy_ok = bool(rets_true) and all(any_lazy(ret_exprs[b]) for b in rets_true)
+        ctx.check(lazy_ok, R, "subsume_possible:false-if-lazy-lexeme",
+                  "a live lazy lexeme makes subsume_possible return false",
+                  "subsume_possible returns true although a lazy lexeme is live in the state", site=sp.where())
+
+
+
 def run(ctx):
     P = ctx.prog
     subsume_operands(ctx, "C10-R4")
@@ -147,49 +214,7 @@ def run(ctx):
         ok = e[0] == "place" and F.place_fields(e[1])[-1:] == [(TS, "idx")]
         ctx.check(ok, "C10-R1", "matches:checks-own-regex", "check_subsume is asked about this slice's own regex (self.idx)",
                   "matches() passes %s as the slice index" % F.fmt_expr(e), site=ma.where(cs[0]))
-    sp = ctx.body(RV + "::subsume_possible")
-    # blocks that may give the result a value other than the literal `false`
-    rets_true = []
-    ret_exprs = {}
-    for bi, si, st in sp.statements():
-        if st["s"] == "assign" and st["p"] == [0] and not (st["r"]["rv"] == "use" and st["r"]["o"].get("iv") == "0"):
-            rets_true.append(bi)
-            ret_exprs[bi] = sp.expr_rvalue(st["r"])
-    if ctx.floor("C10-R1", "`true` return in subsume_possible", len(rets_true), 1):
-        for name, pred in (("state.is_dead()", lambda e: e[0] == "call" and e[1].endswith("StateID::is_dead")),
-                           ("has_error()", lambda e: e[0] == "call" and e[1] == RV + "::has_error")):
-            edges = L.guard_edges(sp, pred, False)
-            still = L.dominated_by_cut(sp, rets_true, edges) if edges else rets_true
-            ctx.check(bool(edges) and not still, "C10-R1", "subsume_possible:false-if:" + name,
-                      "`true` is returned only when !%s" % name, "subsume_possible can return true although %s" % name, site=sp.where())
-        is_lazy = lambda e: e[0] == "call" and e[1].endswith("LexemeSet::contains") and e[2] and L.is_field_read(RV, "lazy")(L.strip_views(e[2][0]))
-        lz = L.guard_edges(sp, is_lazy, True)
-        reach = set()
-        for (_, t) in lz:
-            reach |= sp.reachable(t)
-        lazy_ok = bool(lz) and not (reach & set(rets_true))
-        if not lz:
-            # iterator form: the result is `!iter.any(|(idx, _)| self.lazy.contains(idx))`
-            def any_lazy(e):
-                cur, pol = F.peel_polarity(e)
-                if pol or cur[0] != "call" or not cur[1].endswith("::any") or len(cur[2]) < 2:
-                    return False
-                for c in L._closures_in(cur[2][1]):
-                    clb = P.bodies.get(c)
-                    if clb is None:
-                        continue
-                    def lazy_upvar(x, _clb=clb):
-                        if not (x[0] == "call" and x[1].endswith("LexemeSet::contains") and x[2]):
-                            return False
-                        src = L.upvar_source(P, _clb, L.strip_views(x[2][0]))
-                        return src is not None and L.is_field_read(RV, "lazy")(L.strip_views(src))
-                    if L._returns_guard_value(clb, [(lazy_upvar, True)]):
-                        return True
-                return False
-            lazy_ok = bool(rets_true) and all(any_lazy(ret_exprs[b]) for b in rets_true)
-        ctx.check(lazy_ok, "C10-R1", "subsume_possible:false-if-lazy-lexeme",
-                  "a live lazy lexeme makes subsume_possible return false",
-                  "subsume_possible returns true although a lazy lexeme is live in the state", site=sp.where())
+    subsume_guard(ctx, "C10-R1")
 
     # ---------------------------------------------------------------- R2 un-applied part is walked
     # `return true` blocks of apply
